@@ -1,5 +1,6 @@
 SPECIFICATION Spec
 CONSTANTS
+  MaxBlocks = 64
   Bug_ExtStatSwap = FALSE
-INVARIANT EmitWhy2
+INVARIANT InvStitch
 CHECK_DEADLOCK FALSE
